@@ -221,6 +221,30 @@ theorem loop_condition_runs_once_more (fns : List FnDef) (c : Expr) (b : Block) 
     ∃ cs bs, LoopRun fns c b env cs bs env' ∧ cs.length = bs.length + 1 ∧ t = weave cs bs :=
   while_unfolds fns c b n env env' t v h
 
+/-- **`for` runs its body once per element, in order**: the list expression is
+    evaluated once (`for_list_once`), then the calls of the loop are the calls
+    of as many runs of the body as the list has elements, the loop variable
+    bound to the elements in order. -/
+theorem for_runs_body_once_per_element (fns : List FnDef) (x : Nat) (b : Block) (n : Nat)
+    (env env' : Env) (xs : List Int) (t : Trace) (v : Val) (h : evalFor fns n env x xs b = ⟨t, .ok (env', v)⟩) :
+    ∃ bs, ForRun fns x b env xs bs env' ∧ bs.length = xs.length ∧ t = bs.flatten :=
+  for_unfolds fns x b n env env' xs t v h
+
+theorem for_list_once (fns : List FnDef) (n : Nat) (env env' : Env) (x : Nat) (l : Expr) (b : Block)
+    (t : Trace) (xs : List Int) (h : (evalExpr fns n env l).yields t (env', .list xs)) :
+    (evalExpr fns (n + 1) env (.for x l b)).tr = t ++ (evalFor fns n env' x xs b).tr := by
+  simp only [evalExpr, bind_eq, R.bind_yields h]
+
+/-- A script-function call: the arguments left to right, then the callee's body
+    (in a fresh environment holding the parameters), whose calls come after
+    the arguments'. -/
+theorem script_call_after_arguments (fns : List FnDef) (n : Nat) (env env' : Env) (f : Nat) (args : Exprs)
+    (fd : FnDef) (cenv : Env) (t : Trace) (vs : List Val)
+    (h : (evalArgs fns n env args).yields t (env', vs)) (hf : fns[f]? = some fd)
+    (hb : bindParams fd.params vs [] = some cenv) :
+    (evalExpr fns (n + 1) env (.call f args)).tr = t ++ (evalBlock fns n cenv fd.body).tr := by
+  simp only [evalExpr, bind_eq, R.bind_yields h, hf, hb]
+
 /-! ### T2 — lowerS_trace: the lowering model makes the calls of the specification
 
   Full statement (`lowerS_trace`): for every function of every program, the
@@ -409,6 +433,10 @@ def demoLoopBody : Block :=
 example : evalWhile [] 20 [(0, .int 0)] demoLoopCond demoLoopBody
     = ⟨[⟨1, [.int 1, .bool true]⟩, ⟨2, [.int 2]⟩, ⟨1, [.int 1, .bool true]⟩, ⟨2, [.int 2]⟩, ⟨1, [.int 1, .bool false]⟩],
        .ok ([(0, .int 2)], .unit)⟩ := by decide
+
+-- for_runs_body_once_per_element / for_list_once: `for x1 in [emit(1,7), 5] { emit(2, x1); }`
+example : (evalExpr [] 20 [] (.for 1 (.list (.cons (emitI 1 7) (.cons (.lit (.int 5)) .nil))) (.stmt (emitVar 2 1) .nil))).tr
+    = [⟨0, [.int 1, .int 7]⟩, ⟨0, [.int 2, .int 7]⟩, ⟨0, [.int 2, .int 5]⟩] := by decide
 
 -- T2: `fn main(x0) { x0 - { x0 = 100; emit(1, 1) } }` is in the fragment, and the specification gives it a value
 def demoFn : FnDef :=
